@@ -690,8 +690,10 @@ def oracle_c08(obs: Obs) -> list[Violation]:
             cur = e["conn"]
         elif e["kind"] == "tcp_start" and cur is not None:
             cs = closed_seq.get(cur)
-            if cs is not None and e["seq"] > cs:
-                v.append(Violation("C08", "c08:tcp-attempt-after-close", f"conn{cur}: TCP connect started at seq {e['seq']} after CLOSED at seq {cs}"))
+            # (a connect task whose wake-up was already queued when the close landed still runs its next step in that
+            # very loop turn and is interrupted in the following one: that is the interrupt mechanism, not a leak)
+            if cs is not None and e["seq"] > cs and e["it"] > obs.trace[cs]["it"] + 1:
+                v.append(Violation("C08", "c08:tcp-attempt-after-close", f"conn{cur}: TCP connect started at seq {e['seq']} (loop turn {e['it']}) after CLOSED at seq {cs} (turn {obs.trace[cs]['it']})"))
                 break
     for x in obs.post_close_timers[:1]:
         v.append(Violation("C08", "c08:timer-armed-after-close:" + x.split(":", 1)[1], x))
